@@ -242,6 +242,10 @@ func checkSCT(ctx context.Context, liFactory logInfoFactory, subject string, mer
 		return false
 	}
 
+	// The leaf the log stored for this SCT carries the SCT's extensions as well
+	// as its timestamp (which the LogInfo methods fill in).
+	merkleLeaf.TimestampedEntry.Extensions = sct.Extensions
+
 	result := true
 	klog.Infof("Validate %s against log %q...", subject, logInfo.Description)
 	if err := logInfo.VerifySCTSignature(*sct, *merkleLeaf); err != nil {
